@@ -92,7 +92,7 @@ def discharge_all(fam, seed=0, timeout_ms=solver.DEFAULT_TIMEOUT_MS):
         if cases and len(cases) > 1:
             # adaptive case split (DESIGN §3.2): try the clause as a whole first; only when
             # that is not proved is it split into the named sign / parity cases
-            v = run(o, timeout_ms=8000, portfolio=False)
+            v = run(o, timeout_ms=12000, portfolio=False)
             if v.status == "proved":
                 o.verdict = v
                 out.append(o)
